@@ -278,6 +278,13 @@ func main() {
 				fmt.Println(o.Verdict, o.Key, o.Pos, o.Detail)
 			}
 		}
+	case "ld":
+		rules.LD(rc, 0)
+		for _, o := range s.Obs {
+			if o.Rule == "LD" {
+				fmt.Println(o.Verdict, o.Key, o.Pos, o.Detail)
+			}
+		}
 	case "lc":
 		rules.LC(rc, 0)
 		for _, o := range s.Obs {
